@@ -183,13 +183,19 @@ def tlc(
     except Exception as ex:
         raise ToolError("cannot start TLC: %s" % ex)
     deadline = t0 + timeout
+    stopped = False
     err_lines = []
     in_err = False
     try:
         for ln in p.stdout:
             ln = ln.rstrip("\n")
             if line_cb is not None and ln.startswith("<<"):
-                if line_cb(ln):
+                cbr = line_cb(ln)
+                if cbr == "stop":
+                    stopped = True
+                    p.kill()
+                    break
+                if cbr:
                     continue
             res.lines.append(ln)
             if ln.startswith("Error:") or in_err:
@@ -213,13 +219,17 @@ def tlc(
         shutil.rmtree(wd, ignore_errors=True)
     res.wall = time.time() - t0
     txt_ok = any("Model checking completed. No error has been found." in l or "Finished computing initial states" in l for l in res.lines)
-    if simulate:
+    if stopped:
+        res.ok = not err_lines
+    elif simulate:
         # simulation mode ends without the "completed" banner
         res.ok = p.returncode == 0 and not err_lines
     else:
         res.ok = p.returncode == 0 and txt_ok and not err_lines
     if not res.ok:
         res.error = "\n".join(err_lines) or "\n".join(res.lines[-30:])
+        if "Parsing or semantic analysis failed" in res.error:
+            res.error = "\n".join(l for l in res.lines if not l.startswith(("Parsing file", "Semantic processing", "Linting")))[-3000:]
         if must_succeed:
             raise ToolError("TLC failed on %s/%s (rc=%s):\n%s" % (module, cfg, p.returncode, res.error[-3000:]))
     if coverage:
@@ -426,7 +436,7 @@ def validate_trace(run, module, cfg, events, chunk=20000, maxpar=8, env=None, ti
     return mism
 
 
-def tlc_cases(module, cfg, out_path, tag="CASE", **kw):
+def tlc_cases(module, cfg, out_path, tag="CASE", max_cases=None, **kw):
     """Run a generator spec and stream its PrintT(<<tag, ToJson(x)>>) lines into an ndjson file.
     Returns (TlcResult, number of cases).  -simulate output may contain duplicates: de-duplicated."""
     pre = '<<"%s", "' % tag
@@ -442,6 +452,8 @@ def tlc_cases(module, cfg, out_path, tag="CASE", **kw):
                     if h in seen:
                         return True
                     seen.add(h)
+                if max_cases is not None and n[0] >= max_cases:
+                    return "stop"
                 f.write(s)
                 f.write("\n")
                 n[0] += 1
